@@ -179,6 +179,24 @@ AddConstant(s, name, data, t) ==
                      IF c = name THEN data ELSE s.consts[c]]
     /\ PostRows(s, t, Rows(s), TRUE, FALSE)
 
+\* ensure_properties(src, props): every listed property of src that s lacks
+\* is added with src's type, stride and default; existing particles get the
+\* default
+EnsureProperties(s, src, ps, t) ==
+    LET new == ps \ Names(s)
+        all == Names(s) \cup new
+    IN /\ ps \subseteq Names(src)
+       /\ t.type = [p \in all |-> IF p \in new THEN src.type[p] ELSE s.type[p]]
+       /\ t.stride = [p \in all |-> IF p \in new THEN src.stride[p] ELSE s.stride[p]]
+       /\ t.dflt = [p \in all |-> IF p \in new THEN src.dflt[p] ELSE s.dflt[p]]
+       /\ SameConsts(s, t) /\ t.outs = s.outs
+       /\ Rect(t)
+       /\ N(t) = N(s) /\ t.nreal = s.nreal
+       /\ \A i \in 1..N(s) :
+             Row(t, i) = [p \in all |-> IF p \in new
+                                        THEN Rep(src.dflt[p], src.stride[p])
+                                        ELSE Row(s, i)[p]]
+
 \* in-place write of an existing constant (set(c=..), pa.c[:] = .., get(c))
 SetConstant(s, name, data, t) ==
     /\ name \in DOMAIN s.consts /\ Len(data) = Len(s.consts[name])
